@@ -4,7 +4,16 @@
 package c05
 
 import (
+	"encoding/binary"
+	"encoding/json"
 	"fmt"
+	"github.com/nspcc-dev/neo-go/pkg/core/interop/interopnames"
+	"github.com/nspcc-dev/neo-go/pkg/io"
+	"github.com/nspcc-dev/neo-go/pkg/smartcontract"
+	"github.com/nspcc-dev/neo-go/pkg/smartcontract/callflag"
+	"github.com/nspcc-dev/neo-go/pkg/smartcontract/manifest"
+	"github.com/nspcc-dev/neo-go/pkg/smartcontract/nef"
+	"github.com/nspcc-dev/neo-go/pkg/vm/emit"
 	"math/big"
 	"sort"
 	"strings"
@@ -357,6 +366,76 @@ func TestCheck(t *testing.T) {
 				if left := p.BC.GetUtilityTokenBalance(nativehashes.Notary, u.Hash()).Int64(); left != 0 {
 					run.Violation("notary-deposit-left-after-it-was-spent-exactly", id(p.BC.BlockHeight()), fmt.Sprintf("user %d: deposit %d, fees %d, deposit afterwards %d", k, dep, tx.SystemFee+tx.NetworkFee, left), nil)
 				}
+			}
+		}
+		// a withdrawal whose receiver puts half of it back from inside its payment
+		// callback, as a deposit of the same owner: Notary's GAS must still be the sum
+		// of the deposits afterwards
+		if hist.P.Rejected == nil && hist.P.BC.GetContractState(hist.P.NotaryH) != nil && hi%2 == 0 {
+			p := hist.P
+			for k, u := range p.Users {
+				if u.Blocked || p.BC.GetUtilityTokenBalance(nativehashes.Notary, u.Hash()).Sign() != 0 || p.BC.GetUtilityTokenBalance(u.Hash(), util.Uint160{}).Int64() < 100_0000_0000 {
+					continue
+				}
+				h0 := p.BC.BlockHeight()
+				const back = 2_0000_0000
+				w := io.NewBufBinWriter()
+				emit.InitSlot(w.BinWriter, 0, 3)
+				emit.Opcodes(w.BinWriter, opcode.LDARG0)
+				emit.Bytes(w.BinWriter, nativehashes.Notary.BytesBE())
+				emit.Opcodes(w.BinWriter, opcode.EQUAL)
+				body := io.NewBufBinWriter()
+				emit.Int(body.BinWriter, int64(h0+60))
+				emit.Bytes(body.BinWriter, u.Hash().BytesBE())
+				emit.Opcodes(body.BinWriter, opcode.PUSH2, opcode.PACK)
+				emit.Int(body.BinWriter, back)
+				emit.Bytes(body.BinWriter, nativehashes.Notary.BytesBE())
+				emit.Syscall(body.BinWriter, interopnames.SystemRuntimeGetExecutingScriptHash)
+				emit.Opcodes(body.BinWriter, opcode.PUSH4, opcode.PACK)
+				emit.AppCallNoArgs(body.BinWriter, nativehashes.GasToken, "transfer", callflag.All)
+				emit.Opcodes(body.BinWriter, opcode.DROP)
+				off := make([]byte, 4)
+				binary.LittleEndian.PutUint32(off, uint32(5+body.Len()))
+				emit.Instruction(w.BinWriter, opcode.JMPIFNOTL, off)
+				w.WriteBytes(body.Bytes())
+				emit.Opcodes(w.BinWriter, opcode.RET)
+				nf, err := nef.NewFile(w.Bytes())
+				if err != nil {
+					t.Fatal(err)
+				}
+				name := fmt.Sprintf("redepositor-%d-%d", hi, k)
+				mf := manifest.NewManifest(name)
+				mf.ABI.Methods = []manifest.Method{{Name: "onNEP17Payment", Offset: 0, ReturnType: smartcontract.VoidType, Parameters: []manifest.Parameter{
+					{Name: "from", Type: smartcontract.Hash160Type}, {Name: "amount", Type: smartcontract.IntegerType}, {Name: "data", Type: smartcontract.AnyType}}}}
+				mf.Permissions = []manifest.Permission{*manifest.NewPermission(manifest.PermissionWildcard)}
+				nb, _ := nf.Bytes()
+				mb, _ := json.Marshal(mf)
+				ch := state.CreateContractHash(u.Hash(), nf.Checksum, name)
+				if p.AddBlock(
+					p.Call("deploy-redepositor", []neotest.Signer{u.S}, p.MgmtH, "deploy", nb, mb, nil),
+					p.Call("notary-deposit-short", []neotest.Signer{u.S}, p.GasH, "transfer", u.Hash(), nativehashes.Notary, int64(4_0000_0000), []any{nil, int64(h0 + 3)}),
+				) == nil {
+					break
+				}
+				for p.BC.BlockHeight() < h0+3 && p.AddBlock() != nil {
+				}
+				if p.Rejected != nil || p.BC.GetUtilityTokenBalance(nativehashes.Notary, u.Hash()).Int64() != 4_0000_0000 {
+					break
+				}
+				if p.AddBlock(p.Call("notary-withdraw-to-redepositor", []neotest.Signer{u.S}, p.NotaryH, "withdraw", u.Hash(), ch)) == nil {
+					break
+				}
+				run.Obs("notary_withdrawals_with_a_deposit_made_from_the_payment_callback", 1)
+				if left := p.BC.GetUtilityTokenBalance(nativehashes.Notary, u.Hash()).Int64(); left != back {
+					kl := strings.Join(p.KindLog[len(p.KindLog)-1], " ")
+					if strings.Contains(kl, "notary-withdraw-to-redepositor:HALT") {
+						run.Violation("notary-deposit-made-during-withdrawal-lost", id(p.BC.BlockHeight()), fmt.Sprintf("user %d withdrew 4 GAS to a contract that deposits 2 GAS back for the same owner from its payment callback: the deposit reads %d afterwards", k, left), nil)
+					}
+				}
+				break
+			}
+			if p.Rejected != nil {
+				run.Violation("producer-rejected-own-block:withdraw-with-redeposit", fmt.Sprint("h", hi), p.Rejected.Error(), nil)
 			}
 		}
 		// a signed block carrying a transaction its sender cannot pay for, offered to a
